@@ -70,3 +70,11 @@ def case_tv(t, v, **extra):
     d = {"term": src(t), "term_show": show(t), "value": src(v)}
     d.update(extra)
     return d
+
+
+def safe_repr(x, n=200):
+    try:
+        r = repr(x)
+    except Exception as e:  # noqa: BLE001
+        r = f"<repr raised {type(e).__name__}>"
+    return r if len(r) <= n else r[:n] + "..."
